@@ -1,0 +1,11 @@
+//go:build verif
+
+package test
+
+import "github.com/thought-machine/please/src/core"
+
+// ParseTestResultsForVerif exposes parseTestResults (format dispatch + JUnit XML / go test parsers) to the
+// verification harness (property C26).
+func ParseTestResultsForVerif(data [][]byte) (core.TestSuite, error) {
+	return parseTestResults(data)
+}
